@@ -43,7 +43,8 @@ SCENARIOS = ["client_ok", "client_bad", "raw_PASS_ok", "raw_pass_ok", "raw_PaSs_
              "raw_user_limit", "raw_server_limit", "raw_errors_after_login", "raw_cut_in_pass", "client_ok_ops", "raw_slow_manager",
              "raw_failing_manager", "raw_close_while_logged_in", "client_timeout_in_pass", "raw_latin1_pass", "raw_pipelined_pass",
              "raw_pass_no_newline", "client_failing_manager", "client_hangup_after_pass", "client_acct_first", "raw_long_pass_two_pieces", "client_narrow_encoding",
-             "client_line_break", "client_latin1_to_utf8_server"]
+             "client_line_break", "client_latin1_to_utf8_server",
+             "raw_pass_repeated", "raw_ports_exhausted"]
 
 
 def gen_password(rng):
@@ -97,7 +98,8 @@ async def scenario(net, hyg, name, password):
                     raise RuntimeError("directory service unreachable")
                 return await super().authenticate(user, password)
         users = Manager(users, timeout=0.2 if name not in ("client_timeout_in_pass", "raw_pipelined_pass") else 5)
-    w = W.World(net, users=users, **({"maximum_connections": 1} if name == "raw_server_limit" else {}))
+    w = W.World(net, users=users, **({"maximum_connections": 1} if name == "raw_server_limit" else {}),
+                **({"data_ports": [41001]} if name == "raw_ports_exhausted" else {}))
     await w.start()
     outcome = []
     try:
@@ -116,6 +118,29 @@ async def scenario(net, hyg, name, password):
             except aioftp.StatusCodeError as e:
                 outcome.append("login-rejected:" + str(e.received_codes[-1]))
                 c.close()
+        elif name == "raw_pass_repeated":
+            # the same PASS line several times in a row (accepted the first time when the password is right), then other lines
+            p1 = RawPeer(net, 2121)
+            await p1.connect()
+            outcome.append((await p1.cmd("USER alice")).code)
+            for _ in range(5):
+                outcome.append((await p1.cmd(f"PASS {password}")).code)
+            outcome.append((await p1.cmd("PWD")).code)
+            await p1.cmd("QUIT")
+            p1.cut("fin")
+        elif name == "raw_ports_exhausted":
+            # one data port, held by a session of the same account: the next PASV / EPSV of a logged-in session finds none
+            held = []
+            for verb_ in ("PASV", "EPSV", "PASV"):
+                pp = RawPeer(net, 2121)
+                await pp.connect()
+                outcome.append((await pp.cmd("USER alice")).code)
+                outcome.append((await pp.cmd(f"PASS {password}")).code)
+                r = await pp.cmd(verb_)
+                outcome.append(r.code if r not in (None, "EOF") else str(r))
+                held.append(pp)
+            for pp in held:
+                pp.cut("fin")
         elif name in ("raw_user_limit", "raw_server_limit"):
             # the limit of the user / of the server is reached by sessions that logged in with the password
             p1 = RawPeer(net, 2121)
